@@ -98,11 +98,15 @@ func (g gateClause) ModifyStatement(stmt *gorm.Statement) {
 	}
 }
 
+// Keys comes before Gate: new schemas are parsed by one goroutine at a time, so
+// the window another goroutine can look into is the one in which VKey (parsed on
+// Vault's behalf) is complete and cached while Vault still lacks its clause - the
+// naming-strategy calls of the Keys relation and Gate's hook lie in it
 type Vault struct {
 	ID   uint
 	Name string
-	Gate Gate
 	Keys []VKey
+	Gate Gate
 }
 
 type VKey struct {
@@ -110,6 +114,7 @@ type VKey struct {
 	VaultID uint
 	Vault   *Vault
 	Label   string
+	Rings   []VRing `gorm:"foreignKey:KeyID"` // VRing is parsed on VKey's behalf: complete while Vault, two hops away, is not
 }
 
 // two relationship hops away from Vault (nested joins read the clauses of a schema
@@ -380,6 +385,7 @@ func c07Concurrent(idx []int, prepare bool) {
 		want[k] = c07Alone(cs[i], tags[k], prepare)
 	}
 
+	verifrt.MapRaces()
 	s := c07Store()
 	db := openReal(stubDialector{}, s, &gorm.Config{PrepareStmt: prepare, NamingStrategy: pauseNamer{}, NowFunc: c07Now})
 	warm := verifrt.Bool("warm")
@@ -458,6 +464,7 @@ func H_C07_Free(shape int) {
 	wantB := c07Alone(cb, 22, false)
 	verifrt.Preemptions(1)
 	verifrt.SyncMapPoints()
+	verifrt.MapRaces()
 	s := c07Store()
 	db := openReal(stubDialector{}, s, &gorm.Config{NamingStrategy: pauseNamer{}, NowFunc: c07Now})
 	var ra, rb interface{}
